@@ -276,13 +276,34 @@ impl Epoch {
                     prime_epoch_offset + delta_tdb_tai - ts.prime_epoch_offset()
                 }
                 TimeScale::UTC => {
-                    // Assume it's TAI
-                    let epoch = Self {
-                        duration: prime_epoch_offset,
-                        time_scale: TimeScale::TAI,
-                    };
-                    // TAI = UTC + leap_seconds <=> UTC = TAI - leap_seconds
-                    prime_epoch_offset - epoch.leap_seconds(true).unwrap_or(0.0).seconds()
+                    // TAI = UTC + leap_seconds <=> UTC = TAI - leap_seconds, where the leap seconds
+                    // are those in force at the UTC time. The table is indexed by UTC time: the
+                    // insertion of an entry begins at the TAI instant `timestamp + previous delta`
+                    // and its `delta_at` applies from the TAI instant `timestamp + delta_at` on.
+                    // In between, the leap second is being inserted and the UTC count waits at the
+                    // entry, so that it never goes backwards. The first entry of the table has no
+                    // previous delta: UTC is defined from it on.
+                    let mut utc = prime_epoch_offset;
+                    let mut prev_delta = Duration::ZERO;
+                    for leap_second in LatestLeapSeconds::default() {
+                        if !leap_second.announced_by_iers {
+                            continue;
+                        }
+                        let entry = leap_second.timestamp_tai_s * Unit::Second;
+                        let delta_at = leap_second.delta_at * Unit::Second;
+                        if prime_epoch_offset < entry + prev_delta {
+                            // The insertion of this entry has not begun yet.
+                            break;
+                        }
+                        utc = if prime_epoch_offset >= entry + delta_at || prev_delta == Duration::ZERO
+                        {
+                            prime_epoch_offset - delta_at
+                        } else {
+                            entry
+                        };
+                        prev_delta = delta_at;
+                    }
+                    utc
                 }
                 TimeScale::GPST => prime_epoch_offset - GPST_REF_EPOCH.to_tai_duration(),
                 TimeScale::GST => prime_epoch_offset - GST_REF_EPOCH.to_tai_duration(),
